@@ -709,6 +709,11 @@ def check_fit_raise(ctx, replay, out):
         ctx.mismatch("fitRaise:stableOk-but-unplaced-slice-not-wf-over-the-run", replay, True, o)
     if st not in ("ok", "hang"):
         ctx.count("fit raise: real replace_step raised, openPrefixOk=%s wfWhile=%s" % (prefix, o.get("wfWhile")))
+    # openPrefixOk_of_cut (Props/C11.lean): the generated slices are cut from valid documents; when their non-leaf nodes have
+    # suffix-closed content (`Schema.homogKids`, evaluated by the driver) the static guard holds
+    ctx.count("fit raise: slice nodes have suffix-closed content: %s (schema: %s)" % (o.get("homog"), o.get("homogSchema")))
+    if o.get("homog") and not prefix:
+        ctx.mismatch("fitRaise:homogeneous-cut-slice-but-openPrefixOk-false", replay, True, o)
 
 
 EXACT_OPS = ("fitsTrivially", "replaceStepTrivial", "deleteRangeTarget", "deleteRangeStep", "replaceStep", "fillBeforeO",
